@@ -640,6 +640,16 @@ def do_forward(w, d, op, p):
         ck = (key, tuple(d.in_shape), d.dtype)
         cache = w.__dict__.setdefault("input_cache", {})
         x = cache.get(ck)
+        if x is None and op.get("refill_of") is not None:
+            # ... or refills the buffer of an earlier batch in place, behind the back of torch's version counter
+            pk = (input_key(op["refill_of"]), tuple(d.in_shape), d.dtype)
+            old = cache.get(pk)
+            new = make_input(d, op["input"])
+            if old is not None and not R.is_q(old) and not R.is_q(new) and tuple(old.shape) == tuple(new.shape) and old.dtype == new.dtype:
+                old.data.copy_(new)
+                cache.pop(pk, None)
+                cache[ck] = x = old
+                w.probe("batch_object_refilled_in_place")
         if x is None:
             x = make_input(d, op["input"])
             if len(cache) < 32:
